@@ -14,8 +14,8 @@ OUTSIDE = ['rounding ("powers of two give exact relations" is an IEEE-level stat
 
 def caps(tier):
     if tier == 'quick':
-        return {'tall': {3: 3, 5: 2, 7: 1}, 'gridN': 4, 'dims': (1, 2), 'ngrid': 2}
-    return {'tall': {3: 4, 5: 3, 7: 2}, 'gridN': 6, 'dims': (1, 2, 3), 'ngrid': 4}
+        return {'tall': {3: 3, 5: 2, 7: 1}, 'gridN': 4, 'dims': (1, 2, 4), 'ngrid': 2}
+    return {'tall': {3: 4, 5: 3, 7: 2}, 'gridN': 6, 'dims': (1, 2, 3, 4), 'ngrid': 4}
 
 
 def bounds(tier):
@@ -51,11 +51,15 @@ def tasks(tier, seed):
     return T
 
 
+GN = {'A': 'energy gradient', 'G': 'propagateGrad(energy partials)'}
+
+
 def outputs(s, name, pre, N, o, hs):
     s.add('sp.coeffs', name, pre + 'c')
     s.add('sp.meta', name, pre + 'm')
     s.add('sp.energy', name, pre + 'E')
     s.add('sp.egrad', name, pre + 'A', 'val')
+    s.add('sp.prop', name, pre + 'G', 'val', 'partials')      # propagateGrad of the object's own energy partials
     for i in range(N):
         for k in range(C.NC[o]):
             s.add('sp.seg', name, i, 0, k, '%sb%d_%d' % (pre, i, k))
@@ -158,7 +162,8 @@ def run_task(t):
             sc.real_eq('knot %d shifted by exactly the shift' % i, 'xm.cum.%d' % i, E.add(E.out('m.cum.%d' % i), V('shift')))
         sc.uf_eq('energy independent of the start time', 'xE', 'E')
         for key, nm in pr.inputs():
-            sc.uf_eq('energy gradient [%s] independent of the start time' % G.key_str(key), G.grad_out('xA', key, N), G.grad_out('A', key, N))
+            for PA in ('A', 'G'):
+                sc.uf_eq('%s [%s] independent of the start time' % (GN[PA], G.key_str(key)), G.grad_out('x' + PA, key, N), G.grad_out(PA, key, N))
     elif kind == 'translate':
         for r in range(rows):
             for dd in range(d):
@@ -168,7 +173,8 @@ def run_task(t):
                 sc.real_eq('coefficient[%d,%d] under translation' % (r, dd), 'xc.%d.%d' % (r, dd), exp)
         sc.real_eq('energy invariant under translation', 'xE', E.out('E'))
         for key, nm in pr.inputs():
-            sc.real_eq('energy gradient [%s] invariant under translation' % G.key_str(key), G.grad_out('xA', key, N), E.out(G.grad_out('A', key, N)))
+            for PA in ('A', 'G'):
+                sc.real_eq('%s [%s] invariant under translation' % (GN[PA], G.key_str(key)), G.grad_out('x' + PA, key, N), E.out(G.grad_out(PA, key, N)))
     elif kind == 'scale':
         lam = V('lam')
         for r in range(rows):
@@ -177,7 +183,8 @@ def run_task(t):
         sc.real_eq('energy scales with the square', 'xE', E.mul(E.mul(lam, lam), E.out('E')))
         for key, nm in pr.inputs():
             f = E.mul(lam, lam) if key[0] == 'h' else lam
-            sc.real_eq('energy gradient [%s] scales' % G.key_str(key), G.grad_out('xA', key, N), E.mul(f, E.out(G.grad_out('A', key, N))))
+            for PA in ('A', 'G'):
+                sc.real_eq('%s [%s] scales' % (GN[PA], G.key_str(key)), G.grad_out('x' + PA, key, N), E.mul(f, E.out(G.grad_out(PA, key, N))))
     elif kind == 'timescale':
         sc.positive(['mu'])
         imu = E.inv(V('mu'))
@@ -192,7 +199,8 @@ def run_task(t):
                 p = 2 * sd - 1
             else:
                 p = 2 * sd - 1 - key[1]
-            sc.real_eq('energy gradient [%s] scales by mu^-%d' % (G.key_str(key), p), G.grad_out('xA', key, N), E.mul(E.pow(imu, p), E.out(G.grad_out('A', key, N))))
+            for PA in ('A', 'G'):
+                sc.real_eq('%s [%s] scales by mu^-%d' % (GN[PA], G.key_str(key), p), G.grad_out('x' + PA, key, N), E.mul(E.pow(imu, p), E.out(G.grad_out(PA, key, N))))
     elif kind == 'reverse':
         for i in range(N):
             j = N - 1 - i
@@ -214,10 +222,11 @@ def run_task(t):
             else:
                 k2 = ('end' if kind_ == 'start' else 'start', i, dd)
                 sgn = -1 if i % 2 else 1
-            exp = E.out(G.grad_out('A', key, N))
-            if sgn < 0:
-                exp = E.neg(exp)
-            sc.real_eq('energy gradient [%s] mirrored' % G.key_str(key), G.grad_out('xA', k2, N), exp)
+            for PA in ('A', 'G'):
+                exp = E.out(G.grad_out(PA, key, N))
+                if sgn < 0:
+                    exp = E.neg(exp)
+                sc.real_eq('%s [%s] mirrored' % (GN[PA], G.key_str(key)), G.grad_out('x' + PA, k2, N), exp)
     for r in range(rows):
         for dd in range(d):
             sc.uf_eq('re-updated object: coefficient[%d,%d] == fresh transformed object' % (r, dd), 'uc.%d.%d' % (r, dd), 'xc.%d.%d' % (r, dd))
